@@ -72,7 +72,14 @@ func (f *fn) target() string { return f.group + "." + f.name }
 
 var a300 = strings.Repeat("a", 300)
 
-var poolS = []val{vs(""), vs("a"), vs("ab"), vs("aXbXc"), vs(" a "), vs("é"), vs("\xff"), vs("a\x00b"), vs(","), vs(a300), vs("A"), vs("éa\xffé")}
+// first 12: the pool of the design (+ "A", mixed valid/invalid); rest: Unicode boundary cases that matter to
+// case mapping, white space, rune decoding (dotted I, sharp s, title-case digraph, 4-byte rune, combining mark,
+// truncated rune, encoded surrogate, U+2028, NBSP/tab/newline)
+var poolS = []val{vs(""), vs("a"), vs("ab"), vs("aXbXc"), vs(" a "), vs("é"), vs("\xff"), vs("a\x00b"), vs(","), vs(a300), vs("A"), vs("éa\xffé"),
+	vs("İi"), vs("ß"), vs("ǅ"), vs("😀"), vs("e\u0301"), vs("\xc3"), vs("\xed\xa0\x80"), vs("\u2028a\u00a0"), vs("\ta\n b\r"), vs("aa")}
+
+// the json value space uses the first 12 only (it is squared twice)
+var poolSJ = poolS[:12]
 
 var poolI = []val{vi(-1), vi(0), vi(1), vi(2), vi(64), vi(math.MaxInt64), vi(math.MinInt64)}
 
